@@ -19,41 +19,43 @@ package protocol
 //@   ensures total: err == nil ==> result != nil
 
 //@ func EncodeMessage
-//@   requires msg != nil
+//@   requires nonnil: msg != nil
 
 //@ func (*RequestQualities).SetMsg
-//@   requires msg != nil
+//@   requires nonnil: msg != nil
 //@ func (*ReportQualities).SetMsg
-//@   requires msg != nil
+//@   requires nonnil: msg != nil
 //@ func (*Quality).SetMsg
-//@   requires msg != nil
+//@   requires nonnil: msg != nil
 //@ func (*RequestProof).SetMsg
-//@   requires msg != nil
+//@   requires nonnil: msg != nil
 //@ func (*ReportProof).SetMsg
-//@   requires msg != nil
+//@   requires nonnil: msg != nil
 //@ func (*Proof).SetMsg
-//@   requires msg != nil
+//@   requires nonnil: msg != nil
 //@ func (*RequestSignature).SetMsg
-//@   requires msg != nil
+//@   requires nonnil: msg != nil
 //@ func (*ReportSignature).SetMsg
-//@   requires msg != nil
+//@   requires nonnil: msg != nil
 
 //@ func NewQuality
-//@   requires msg != nil
+//@   ensures nil-rejected: msg == nil ==> err != nil
+//@   ensures ok-nonnil: err == nil ==> result != nil
 //@ func NewProof
-//@   requires msg != nil
+//@   ensures nil-rejected: msg == nil ==> err != nil
+//@   ensures ok-nonnil: err == nil ==> result != nil
 //@ func NewRequestQualities
-//@   requires msg != nil
+//@   requires nonnil: msg != nil
 //@ func NewReportQualities
-//@   requires msg != nil
+//@   requires nonnil: msg != nil
 //@ func NewRequestProof
-//@   requires msg != nil
+//@   requires nonnil: msg != nil
 //@ func NewReportProof
-//@   requires msg != nil
+//@   requires nonnil: msg != nil
 //@ func NewRequestSignature
-//@   requires msg != nil
+//@   requires nonnil: msg != nil
 //@ func NewReportSignature
-//@   requires msg != nil
+//@   requires nonnil: msg != nil
 
 // ---- well-formedness of messages on the encoding side (the decoder's range, see DESIGN C16)
 
@@ -62,37 +64,37 @@ package protocol
 
 //@ func (*RequestQualities).Msg
 //@   modifies nothing
-//@   requires req.ParentTarget != nil
-//@   ensures result != nil
+//@   requires wf: req.ParentTarget != nil
+//@   ensures nonnil: result != nil
 //@ func (*RequestQualities).Bytes
-//@   requires req.ParentTarget != nil
+//@   requires wf: req.ParentTarget != nil
 //@ func (*RequestQualities).Copy
-//@   requires req.ParentTarget != nil
+//@   requires wf: req.ParentTarget != nil
 //@ func (*Quality).Msg
 //@   modifies nothing
-//@   requires wfQuality(q)
-//@   ensures result != nil
+//@   requires wf: wfQuality(q)
+//@   ensures nonnil: result != nil
 //@ func (*ReportQualities).Msg
 //@   modifies nothing
-//@   requires forall i int :: 0 <= i && i < len(resp.Qualities) ==> wfQuality(resp.Qualities[i])
+//@   requires wf: forall i int :: 0 <= i && i < len(resp.Qualities) ==> wfQuality(resp.Qualities[i])
 //@   loop i invariant forall j int :: 0 <= j && j < len(resp.Qualities) ==> wfQuality(resp.Qualities[j])
 //@   loop i invariant fresh(qualities)
-//@   ensures result != nil
+//@   ensures nonnil: result != nil
 //@ func (*ReportQualities).Bytes
-//@   requires forall i int :: 0 <= i && i < len(resp.Qualities) ==> wfQuality(resp.Qualities[i])
+//@   requires wf: forall i int :: 0 <= i && i < len(resp.Qualities) ==> wfQuality(resp.Qualities[i])
 //@ func (*Proof).Msg
 //@   modifies nothing
-//@   requires wfProof(p)
-//@   ensures result != nil
+//@   requires wf: wfProof(p)
+//@   ensures nonnil: result != nil
 //@ func (*ReportProof).Msg
 //@   modifies nothing
-//@   requires wfProof(resp.Proof)
-//@   ensures result != nil
+//@   requires wf: wfProof(resp.Proof)
+//@   ensures nonnil: result != nil
 //@ func (*ReportProof).Bytes
-//@   requires wfProof(resp.Proof)
+//@   requires wf: wfProof(resp.Proof)
 //@ func (*ReportSignature).Msg
 //@   modifies nothing
-//@   requires resp.Signature != nil
-//@   ensures result != nil
+//@   requires wf: resp.Signature != nil
+//@   ensures nonnil: result != nil
 //@ func (*ReportSignature).Bytes
-//@   requires resp.Signature != nil
+//@   requires wf: resp.Signature != nil
